@@ -1168,3 +1168,107 @@ def c10_windows(ctx, verdict, intensive=False):
 
 
 WINDOWS['C10'] = c10_windows
+
+
+# ==========================================================================================
+# C01: the relay keeps working after StreamTimeout has elapsed (deadlines armed on the local connection)
+def c01dl_gen(ctx, intensive=False):
+    cases = []
+    for T in (5000, 300000):
+        for d1 in (0, 100, T - 100):
+            for gap in (0, T // 2, T - d1, T - d1 + 1, T + 1000, 3 * T):
+                for script in (['D:100', 'U:50'], ['U:100', 'D:50'], ['D:1', 'G:%d' % T, 'D:20000', 'U:3', 'G:%d' % (2 * T), 'U:70000', 'D:5']):
+                    steps = (['G:%d' % gap] if gap else []) + script
+                    cid = 'dl%d' % len(cases)
+                    cases.append((cid, '%s DL %d %d %s' % (cid, T, d1, ' '.join(steps)), dict(T=T, d1=d1, steps=steps, late=False)))
+        cid = 'dl%d' % len(cases)
+        cases.append((cid, '%s DL %d %d U:10 D:10' % (cid, T, T + 1000), dict(T=T, d1=T + 1000, steps=['U:10', 'D:10'], late=True)))
+    return cases
+
+
+def c01dl_oracle(meta, d):
+    if 'streams' not in d:
+        return 'trial did not complete'
+    if meta['late']:
+        return None
+    if d['streams'] != '1':
+        return '%s streams at the far end for one local connection' % d['streams']
+    if d['upok'] != '1' or d['downok'] != '1' or d['closed'] != '0' or d['eos'] != '0':
+        lost = []
+        if d['downok'] != '1':
+            lost.append('remote->local: %s bytes arrived' % d['down'])
+        if d['upok'] != '1':
+            lost.append('local->remote: %s bytes arrived' % d['up'])
+        return ('a local connection still in use after StreamTimeout has elapsed since it was accepted (StreamTimeout %d ms, first packet after %d ms): %s%s%s; nothing failed and nobody closed anything (deadline calls on the local connection: %s; still armed at the end: %s)' % (
+            meta['T'], meta['d1'], '; '.join(lost) or 'all bytes arrived',
+            '; the relay closed the local connection' if d['closed'] == '1' else '', '; the stream ended at the far end' if d['eos'] == '1' else '',
+            d.get('calls'), d.get('armed')))
+    return None
+
+
+def c01dl_schedule(meta, d):
+    return ['client.RouteTCP(StreamTimeout = %d ms) on a harness-owned listener and local connection that enforces the deadlines armed on it; real Session pair; virtual clock (testing/synctest)' % meta['T'],
+            't0: local connection accepted; t0 + %d ms: its first packet (64 bytes)' % meta['d1'],
+            'then: ' + ', '.join({'G': 'idle %s ms', 'U': 'local->remote %s bytes', 'D': 'remote->local %s bytes'}[s[0]] % s[2:] for s in meta['steps']),
+            'deadline calls seen by the local connection: %s' % d.get('calls'),
+            'result: local->remote %s bytes, remote->local %s bytes, local connection closed by the relay: %s, stream ended: %s, deadlines still armed: %s' % (d.get('up'), d.get('down'), d.get('closed'), d.get('eos'), d.get('armed'))]
+
+
+def c01dl_run(ctx, lines, tag):
+    inp = '%s/%s.in' % (ctx.work, tag); out = '%s/%s.go.out' % (ctx.work, tag)
+    open(inp, 'w').write('\n'.join(lines) + '\n')
+    if os.path.exists(out):
+        os.remove(out)
+    rc, log, dt = vlib.go_test(ctx, 'client', 'TestVerifC01Deadline', files=['c01_deadline_test.go', 'c01_route_test.go'], env=dict(VERIF_IN=inp, VERIF_OUT=out), timeout=300, synctest=True)
+    return rc, log, vlib.read_lines_by_id(out), dt
+
+
+def c01_deadlines(ctx, verdict, intensive=False):
+    broken = []
+    cases = c01dl_gen(ctx, intensive)
+    rc, log, impl, dt = c01dl_run(ctx, [c[1] for c in cases], 'deadline')
+    if rc != 0 or not impl:
+        broken.append(('Go driver TestVerifC01Deadline (RouteTCP on a deadline-enforcing local connection, virtual clock) failed to build or run', log[-3000:]))
+        return broken
+    fails = []
+    for cid, line, meta in cases:
+        io = impl.get(cid)
+        if io is None:
+            continue
+        d = c12_parse(io)
+        if meta['late'] and not (d.get('closed') == '1' and d.get('streams') == '0'):
+            broken.append(('driver sanity: a first packet later than StreamTimeout was not timed out by RouteTCP (the harness connection must enforce deadlines)', io))
+        msg = c01dl_oracle(meta, d)
+        if msg:
+            fails.append((len(line), line, meta, io, d, msg))
+    for _, line, meta, io, d, msg in sorted(fails, key=lambda f: f[0])[:1]:
+        verdict.oracle_failure('route-tcp:deadline', 'C01 oracle (client.RouteTCP, connection outliving StreamTimeout): ' + msg,
+                               dict(kind='window', driver='c01dl', case=line, meta=meta, implementation=io, schedule=c01dl_schedule(meta, d),
+                                    how='python3 tools/check.py C01 --replay <this file>  (GOEXPERIMENT=synctest VERIF_IN=<file with the case line> go test -overlay .. -run TestVerifC01Deadline ./internal/client/)'))
+    verdict.cov['route_tcp_deadlines'] = dict(cases=len(cases), ran=len(impl), oracle_failures=len(fails), go_seconds=round(dt, 1),
+                                              rule='RouteTCP with StreamTimeout 5 s and 300 s on a local connection that enforces SetDeadline/SetReadDeadline/SetWriteDeadline, virtual clock; first packet at 0 / 100 ms / StreamTimeout-100 ms; transfers in both directions (1..70000 bytes) after idle gaps of 0, T/2, exactly up to the armed instant, one ms later, T+1 s, 3T, and again after further gaps; plus the late-first-packet sanity case')
+    verdict.cov['evaluations'] = verdict.cov.get('evaluations', 0) + len(cases)
+    return broken
+
+
+def c01dl_replay(ctx, r):
+    rc, log, impl, dt = c01dl_run(ctx, [r['case']], 'replay')
+    io = impl.get(r['case'].split()[0]) or ''
+    d = c12_parse(io)
+    for s in c01dl_schedule(r['meta'], d):
+        print('  ', s)
+    msg = c01dl_oracle(r['meta'], d)
+    print('oracle:', msg)
+    return 1 if msg else 0
+
+
+REPLAY['c01dl'] = c01dl_replay
+_c01_windows_route = c01_windows
+
+
+def c01_windows(ctx, verdict, intensive=False):
+    broken = _c01_windows_route(ctx, verdict, intensive)
+    return broken + c01_deadlines(ctx, verdict, intensive)
+
+
+WINDOWS['C01'] = c01_windows
